@@ -91,13 +91,14 @@ def hasInexact (tab : List (Value × Option Value)) (ts : List Tuple) : Bool :=
 
 /-- class of a failure concerning relation `r`, from the tuples its log received. Most specific first. -/
 def relClass (tab : List (Value × Option Value)) (mixed : Bool) (ts : List Tuple) : String :=
-  if hasArity0 ts then "zero_arity_tuple"
-  else if mixed then "mixed_kinds_in_column"
+  if mixed then "mixed_kinds_in_column"
+  else if hasNonFinite ts then "nonfinite_float_wal_line"
+  else if hasInexact tab ts then "float_json_roundtrip"
+  -- repaired families, kept as named regression classes (none of them is a known finding any more)
+  else if hasArity0 ts then "zero_arity_tuple"
   else if hasNull ts then "null_typed_column"
   else if hasEmptyVec ts then "empty_vector_column"
   else if hasTs ts then "timestamp_retyped_int64"
-  else if hasNonFinite ts then "nonfinite_float_wal_line"
-  else if hasInexact tab ts then "float_json_roundtrip"
   else "unclassified"
 
 def relsOf (seen : List (Op × String)) : List String :=
